@@ -108,6 +108,18 @@ check("C16", "rocq-membership", "proof",
       "Trusted: Coq kernel, hand-written Membership.v, ExtrOcamlBasic extraction with a vm_compute cross-check, the OCaml driver, the Rust "
       "executor (schedule control by yielding on a current-thread runtime). The consumers' apply loop is re-implemented in the executor and pinned "
       "by source patterns. D9 (late subscriber / coalesced deltas on the watch channel) is a known finding, not repaired.")
+check("C17", "rocq-storage", "translation_validation",
+      "Differential of MemStore, SQLite (memory and file) and LMDB against a proved-about reference model. After every call of generated "
+      "contract-allowed call sequences all observers (get, multi_get, iter_metadata, keyspace list) are compared with the extracted Coq reference "
+      "and by an independent oracle. Sequences are bounded-exhaustive for short ones and random beyond; close+reopen after any prefix for the "
+      "persistent backends. The theorems in coq/storage/Properties/C17.v hold for all states, all call sequences and any payload type: frame rule "
+      "(keyspaces never affect one another), get-after-put, last write wins, metadata = last write per id, reopen = identity, observations "
+      "determined by per-id last write, allowed purge keeps documents. They are about the reference only; agreement of the backends is established "
+      "on the cases run, not proved.",
+      "Keyspace lists compared modulo keyspaces without entries (the backends legitimately differ there); multi_get compared as a set; close = "
+      "orderly drop, no crash or power-loss durability; SQL, LMDB and file-system semantics trusted. Known finding: SQLite stores the stamp's "
+      "Display text, so a non-canonical stamp word (fraction byte > 249, only reachable through from_u64) does not come back unchanged.",
+      "differential execution against a Coq-verified executable reference model (extracted with ExtrOcamlBasic)")
 check("C18", "rocq-keyspace", "proof",
       "Theorems in coq/keyspace/Properties/C18.v over the interleaving model Keyspace.v of get_or_create_keyspace/add_state, for any number of "
       "tasks and every schedule (invariant of the transition system): all returned tasks hold the instance in the map, the entry never changes, "
